@@ -690,7 +690,26 @@ class Ledger:
         self.det_track = {}        # uid -> id
         self.delivered = set()
         self.cleared = set()
+        self.collected = set()     # expired tracks moved to the store of collected tracks, not yet handed out / cleared
+        self.aw_cnt = 100          # AutoWaste.counter / .periodicity (DEFAULT_AUTO_WASTE_PERIODICITY)
+        self.aw_per = 100
         self.names = Names()
+
+    def collect(self, max_idle):
+        """a collection pass (skip_epochs, wasted(), the periodic pass of predict): every expired track still live is
+        moved to the store of collected expired tracks"""
+        for tid, t in self.tracks.items():
+            if tid in self.collected or tid in self.delivered or tid in self.cleared:
+                continue
+            if self.ep(t["scene"]) - t["last"] > max_idle:
+                self.collected.add(tid)
+
+    def prologue(self, max_idle):
+        if self.aw_cnt == 0:
+            self.collect(max_idle)
+            self.aw_cnt = self.aw_per
+        else:
+            self.aw_cnt -= 1
 
     def ep(self, s):
         return self.epoch.get(s, 0)
@@ -727,6 +746,7 @@ def oracle_history(h, run, want=("C01", "C03", "C04")):
                 bd = dict(body) if kind == "batch" else {}
                 groups = [(s, ds, bd.get(s, [] if not ds else None)) for s, ds in op["scenes"]]
             seen_ids = set()
+            L.prologue(max_idle)
             for scene, dets, recs in groups:
                 if L.batch and not dets:
                     # a BatchSort request cannot carry a scene without detections: nothing was submitted
@@ -774,6 +794,10 @@ def oracle_history(h, run, want=("C01", "C03", "C04")):
                         flag("C01", "length", "op %d: record %d length %d, %d detections attached to track %d" % (i, j, r["len"], len(t["dets"]), r["id"]), i)
         elif k == "skip":
             L.epoch[op["scene"]] = L.ep(op["scene"]) + op["n"]
+            L.collect(max_idle)        # skip_epochs forces a collection pass
+        elif k == "setaw":
+            L.aw_per = op["p"]
+            L.aw_cnt = 0
         elif k == "epoch":
             if body != L.ep(op["scene"]):
                 flag("C03", "epoch", "op %d: current_epoch(%d) = %d, expected %d (one per predict, n per skip)" % (i, op["scene"], body, L.ep(op["scene"])), i)
@@ -785,6 +809,14 @@ def oracle_history(h, run, want=("C01", "C03", "C04")):
                 flag("C03", "delivered-twice", "op %d: wasted() hands out a track a second time: %s" % (i, got), i)
             if got != exp:
                 flag("C03", "expiry", "op %d: wasted() returned %s, the expired tracks are %s (max_idle %d)" % (i, got, exp, max_idle), i)
+            L.collect(max_idle)
+            if any(g in L.cleared for g in got):
+                flag("C03", "cleared-delivered", "op %d: wasted() hands out tracks %s that clear_wasted() had already discarded" % (
+                    i, sorted(g for g in got if g in L.cleared)), i)
+            elif got != sorted(L.collected):
+                flag("C03", "expiry", "op %d: wasted() returned %s, the expired tracks not yet handed out or cleared are %s (max_idle %d)" % (
+                    i, got, sorted(L.collected), max_idle), i)
+            L.collected = set()
             for t in body:
                 lt = L.tracks.get(t["id"])
                 if lt is not None and t["len"] != len(lt["dets"]):
@@ -798,15 +830,25 @@ def oracle_history(h, run, want=("C01", "C03", "C04")):
             if got != exp:
                 flag("C03", "idle", "op %d: idle_tracks(%d) = %s, expected the unexpired tracks not updated in epoch %d: %s" % (i, s, got, L.ep(s), exp), i)
         elif k == "clear":
-            L.cleared.update(t["id"] for t in prev_wst)
+            # clear_wasted() discards the collected expired tracks (collection passes: skip_epochs, wasted(), the periodic
+            # pass of predict by the auto-waste counter)
+            L.cleared.update(L.collected)
+            L.collected = set()
             cleared_seen = True
         elif k == "astats":
             # the property speaks about the NUMBER of tracks held; how they are spread over the shards is not part of it
             if sum(body) != len(prev_main) or len(body) != h["shards"]:
                 flag("C03", "stats-active", "op %d: active_shard_stats %s (sum %d), the live store holds %d tracks" % (i, body, sum(body), len(prev_main)), i)
+            live_n = len(L.tracks) - len(L.collected) - len(L.delivered) - len(L.cleared)
+            if sum(body) != live_n:
+                flag("C03", "stats-active", "op %d: active_shard_stats %s (sum %d), but %d tracks are live (created %d, collected %d, handed out %d, cleared %d)" % (
+                    i, body, sum(body), live_n, len(L.tracks), len(L.collected), len(L.delivered), len(L.cleared)), i)
         elif k == "wstats":
             if sum(body) != len(prev_wst) or len(body) != h["shards"]:
                 flag("C03", "stats-wasted", "op %d: wasted_shard_stats %s (sum %d), the store of collected expired tracks holds %d" % (i, body, sum(body), len(prev_wst)), i)
+            if sum(body) != len(L.collected):
+                flag("C03", "stats-wasted", "op %d: wasted_shard_stats %s (sum %d), but %d expired tracks were collected and not yet handed out or cleared: %s" % (
+                    i, body, sum(body), len(L.collected), sorted(L.collected)[:6]), i)
         # places after the op
         main_ids = [t["id"] for t in st["main"]]
         wst_ids = [t["id"] for t in st["wst"]]
@@ -1550,7 +1592,10 @@ def assign_link(data, max_hist=40):
     hists, runs = data["hists"], data["runs"]
     if not os.path.exists(os.path.join(vlib.COQ, "theories", "Proofs", "TrackerAssign.vo")):
         return {"histories": 0, "note": "Proofs/TrackerAssign.vo not built"}, []
-    sel = [k for k, h in enumerate(hists) if runs[k] is not None and small_history(h, runs[k]) and tie_free(h, runs[k])][:max_hist]
+    # only the positional trackers: the visual kinds associate by appearance voting first (their oracle weights are a mere
+    # "offered" flag), so the Hungarian step alone does not describe them
+    sel = [k for k, h in enumerate(hists) if runs[k] is not None and not is_visual(h)
+           and small_history(h, runs[k]) and tie_free(h, runs[k])][:max_hist]
     terms, infos = [], []
     for k in sel:
         t, info = build_case(hists[k], runs[k])
